@@ -516,7 +516,10 @@ class Buildable(Generic[T], metaclass=abc.ABCMeta):
             ' To append values to variadic positional arguments, you can use '
             ' config[fdl.VARARGS:] = value.'
         )
-      for index, v in zip(indices, value):
+      # Read the right-hand side completely before the first write (as list
+      # slice assignment does): if iterating it raises part-way, nothing must
+      # be left half-assigned.
+      for index, v in zip(indices, list(value)):
         self._set_item_by_index(index, v)
     else:
       # The slice key only spans on variadic positional arguments
